@@ -145,7 +145,7 @@ def repl_conformance(rep, d, alphabet, maxlen, label="repl"):
 def run(tier, seed):
     rep = nv.Report(PROP, tier, seed, "model_checking")
     d = nv.scratch("xrepl")
-    plan = [("small", 3), ("full", 2)] if tier == "quick" else [("small", 4), ("mid", 3), ("full", 3)]
+    plan = [("small", 3), ("full", 2)] if tier == "quick" else [("small", 4), ("mid", 2), ("full", 2)]
     total = 0
     for alphabet, maxlen in plan:
         total += repl_conformance(rep, d, alphabet, maxlen, label="%s%d" % (alphabet, maxlen))
